@@ -1,6 +1,18 @@
+// Emits --cfg walleye_verif (the guard) and generates the module mounts of the engine's own
+// source files. The repository is /repo unless VERIF_REPO names a scratch copy (used only by
+// the mutant / seed audits, which must not disturb /repo; every MANIFEST command uses /repo).
+use std::io::Write;
 fn main() {
+    let repo = std::env::var("VERIF_REPO").unwrap_or_else(|_| "/repo".to_string());
     println!("cargo:rustc-cfg=walleye_verif");
     println!("cargo:rustc-check-cfg=cfg(walleye_verif)");
-    println!("cargo:rerun-if-changed=/repo/src");
+    println!("cargo:rerun-if-env-changed=VERIF_REPO");
+    println!("cargo:rerun-if-changed={}/src", repo);
     println!("cargo:rerun-if-changed=build.rs");
+    let out = std::path::PathBuf::from(std::env::var("OUT_DIR").unwrap()).join("mounts.rs");
+    let mut f = std::fs::File::create(&out).unwrap();
+    for m in ["board", "draw_table", "engine", "evaluation", "move_generation", "search", "time_control", "uci", "utils", "zobrist"] {
+        writeln!(f, "#[path = \"{}/src/{}.rs\"]\npub mod {};", repo, m, m).unwrap();
+        println!("cargo:rerun-if-changed={}/src/{}.rs", repo, m);
+    }
 }
